@@ -1,5 +1,5 @@
 """C07 - every contract and result scores what the duplicate table says (complete domain)."""
-from vf.common.core import Violation, check, guard
+from vf.common.core import Violation, check, guard, orders
 from vf.common import be
 from vf.model import score as S, auction as A
 
@@ -9,7 +9,7 @@ EXHAUSTIVE = True
 RULE = ('complete enumeration: 35 bids x {undoubled,X,XX} x 4 board vulnerabilities x 4 declarers x '
         '14 trick counts through calc_score(Contract, tricks) (23520 cells), the same grid through '
         'calc_bid_score with the side-vulnerability flag, and both passed-out contract forms x 4 '
-        'vulnerabilities x 14 trick counts; oracle = Law 77 formula in vf/model/score.py. '
+        'vulnerabilities x 14 trick counts; the whole grid is visited three times in different orders (as listed, reversed, strided by the seed) so that a score depending on earlier calls is seen; oracle = Law 77 formula in vf/model/score.py. '
         'Non-trivial = cell whose board vulnerability is NS or EW (declarer\'s side decides) or a '
         'passed-out cell; '
         'distinct by (bid,dbl,vul,declarer,tricks).')
@@ -63,25 +63,24 @@ def run_shard(spec, seed, tier, stats):
     fails = {}
     try:
         if spec['kind'] == 'grid':
-            for bid in range(35):
-                if bid % 5 != spec['bids'][0] % 5:
-                    continue
-                for dbl in range(3):
-                    for vn in be.VUL_NAMES:
-                        for decl in range(4):
-                            for tricks in range(14):
-                                try:
-                                    _cell(bid, dbl, vn, decl, tricks, stats)
-                                except Violation as v:
-                                    fails.setdefault(v.clause, v)
+            cells = [(bid, dbl, vn, decl, tricks) for bid in range(35) if bid % 5 == spec['bids'][0] % 5 for dbl in range(3)
+                     for vn in be.VUL_NAMES for decl in range(4) for tricks in range(14)]
+            # the complete grid, three times in different orders: a score must not depend on what was scored before
+            for name, items in orders(cells, seed // 1000):
+                for t in items:
+                    try:
+                        _cell(*t, stats=stats if name == 'forward' else None)
+                    except Violation as v:
+                        v.case = dict(v.case, enumeration_order=name) if isinstance(v.case, dict) else v.case
+                        fails.setdefault(v.clause, v)
+                stats.cls(f'grid pass ({name} order)')
         else:
-            for form in ('None', 'Pass'):
-                for vn in be.VUL_NAMES:
-                    for tricks in range(14):
-                        try:
-                            _passed(form, vn, tricks, stats)
-                        except Violation as v:
-                            fails.setdefault(v.clause, v)
+            for name, items in orders([(form, vn, tricks) for form in ('None', 'Pass') for vn in be.VUL_NAMES for tricks in range(14)], seed // 1000):
+                for t in items:
+                    try:
+                        _passed(*t, stats=stats if name == 'forward' else None)
+                    except Violation as v:
+                        fails.setdefault(v.clause, v)
     except Violation as v:
         fails.setdefault(v.clause, v)
     return list(fails.values())
